@@ -172,6 +172,7 @@ type FuncSpec struct {
 	SortConflict string
 	SortLess     string
 	SortTags     []string
+	ModAll       bool // "modifies *": every heap array not named by another modifies clause may change arbitrarily
 	Used     bool
 	fn       *ssa.Function
 }
@@ -346,6 +347,11 @@ func (p *parser) parseType() *TypeExpr {
 		k := p.parseType()
 		p.expectOp("]")
 		return &TypeExpr{Kind: "map", Key: k, Elem: p.parseType()}
+	}
+	if name == "struct" && p.isOp("{") {
+		p.next()
+		p.expectOp("}")
+		return &TypeExpr{Kind: "emptystruct"}
 	}
 	if name == "set" && p.isOp("[") {
 		p.next()
@@ -872,6 +878,10 @@ func (db *SpecDB) LoadSpecFile(path string, pkgPath string) error {
 		case "modifies":
 			if cur == nil {
 				return fail(ll, "modifies outside func")
+			}
+			if strings.TrimSpace(rest) == "*" {
+				cur.ModAll = true
+				continue
 			}
 			mc, err := parseModifies(rest)
 			if err != nil {
